@@ -209,6 +209,7 @@ def run(ck):
                 nesting=stats["depth"], raises=min(stats["raises"], 2), created_inside=min(stats["created_inside"], 3),
                 sample=[l[:60] for l in lines[-min(12, stats["events"] + 6):]] if h < 1 else None)
     tensor_stream(ck, qr, numpy, m)
+    complex_stream(ck, qr, numpy, m)
     model = ck.drive(DRIVER, lines, args=(N,))
     if model is not None:
         for l, a, b, k in zip(lines, impl, model, kinds):
@@ -295,3 +296,90 @@ def tensor_stream(ck, qr, numpy, m):
             m._in_eigenbasis_of_context = False; m.current_basis_operator = None
         for what, dev in bad:
             ck.fail("tensor:%s" % what, "tensor/superoperator stream: %s differs (%.3g)" % (what, dev), inp)
+
+
+def complex_stream(ck, qr, numpy, m):
+    """contexts of COMPLEX Hermitian operators (unitary, not orthogonal, transformations) on operators and states:
+    diagonal/ascending inside, tr(A rho) invariant, everything restored after leaving (nested, through exceptions,
+    objects created inside), re-entry; oracle only"""
+    from quantarhei import eigenbasis_of, ReducedDensityMatrix, Hamiltonian
+    from quantarhei.qm import Operator
+    from quantarhei.qm.hilbertspace.operators import SelfAdjointOperator
+    rng = ck.rng
+
+    def cherm(n, deg=False):
+        a = numpy.array([[rng.randint(-6, 6) / 4.0 + 1j * rng.randint(-6, 6) / 4.0 for _ in range(n)] for _ in range(n)])
+        a = (a + a.conj().T) / 2.0
+        if deg:
+            # a degenerate spectrum with complex eigenvectors: U diag(1,1,3..) U^+
+            w, v = numpy.linalg.eigh(a)
+            w = numpy.array([1.0, 1.0] + [3.0 + k for k in range(n - 2)])
+            a = (v * w) @ v.conj().T
+            a = (a + a.conj().T) / 2.0
+        return a
+
+    for h in range(ck.n(10, 120)):
+        n = rng.choice([2, 3, 3, 4])
+        Hc = cherm(n, deg=(n >= 3 and rng.random() < 0.25))
+        Oc = cherm(n)
+        ctx = Hamiltonian(data=Hc.copy()) if rng.random() < 0.5 else SelfAdjointOperator(data=Hc.copy())
+        ctx2 = SelfAdjointOperator(data=Oc.copy())
+        Ad = numpy.array([[rng.randint(-4, 4) / 4.0 + 1j * rng.randint(-4, 4) / 4.0 for _ in range(n)] for _ in range(n)])
+        A = Operator(data=Ad.copy())
+        rd = cherm(n); rd = rd @ rd.conj().T; rd = rd / numpy.trace(rd).real
+        rho = ReducedDensityMatrix(data=rd.copy())
+        nest = rng.random() < 0.5
+        boom = rng.random() < 0.4
+        inp = {"context operator": [[str(z) for z in r] for r in Hc], "n": n, "nested": nest, "exception": boom}
+        t_out = numpy.trace(Ad @ rd)
+        bad = []
+        made = {}
+        try:
+            try:
+                with eigenbasis_of(ctx):
+                    dd = numpy.array(ctx.data)
+                    off = numpy.abs(dd - numpy.diag(numpy.diag(dd))).max()
+                    ev = numpy.real(numpy.diag(dd))
+                    if off > 1e-9 * max(1.0, numpy.abs(dd).max()) or numpy.any(numpy.diff(ev) < -1e-9):
+                        bad.append(("inside:diagonal", float(off)))
+                    t_in = numpy.trace(numpy.array(A.data) @ numpy.array(rho.data))
+                    if abs(t_in - t_out) > 1e-9 * max(1.0, abs(t_out)):
+                        bad.append(("inside:trAB", abs(t_in - t_out)))
+                    B = Operator(data=numpy.array(A.data) @ numpy.array(rho.data))      # created inside, in this basis
+                    made["B"] = B
+                    if nest:
+                        with eigenbasis_of(ctx2):
+                            t_in2 = numpy.trace(numpy.array(A.data) @ numpy.array(rho.data))
+                            if abs(t_in2 - t_out) > 1e-9 * max(1.0, abs(t_out)):
+                                bad.append(("inside:trAB:nested", abs(t_in2 - t_out)))
+                            if boom:
+                                raise Boom()
+                    elif boom:
+                        raise Boom()
+            except Boom:
+                pass
+            sc = max(1.0, float(numpy.abs(Hc).max()))
+            for nm, obj, want in (("context operator", ctx, Hc), ("second operator", ctx2, Oc), ("operator", A, Ad), ("state", rho, rd),
+                                  ("operator created inside", made.get("B"), Ad @ rd)):
+                if obj is None:
+                    continue
+                dev = float(numpy.abs(numpy.asarray(obj._data) - want).max())
+                if dev > 1e-9 * sc or obj.get_current_basis() != 0:
+                    bad.append(("restore:" + nm, dev))
+            if len(m.basis_stack) != 1 or m.basis_registered or m.current_basis_operator is not None or m._in_eigenbasis_of_context:
+                bad.append(("bookkeeping", 0.0))
+                m.basis_stack[:] = [0]; m.basis_transformations[:] = [1]; m.basis_registered.clear()
+                m._in_eigenbasis_of_context = False; m.current_basis_operator = None
+            # re-entry still diagonalises
+            with eigenbasis_of(ctx):
+                dd = numpy.array(ctx.data)
+                if numpy.abs(dd - numpy.diag(numpy.diag(dd))).max() > 1e-9 * sc:
+                    bad.append(("re-entry:diagonal", float(numpy.abs(dd - numpy.diag(numpy.diag(dd))).max())))
+        except Exception as e:
+            ck.fail("raises:complex-context", "context of a complex Hermitian operator raised %r" % (e,), inp)
+            m.basis_stack[:] = [0]; m.basis_transformations[:] = [1]; m.basis_registered.clear()
+            m._in_eigenbasis_of_context = False; m.current_basis_operator = None
+            continue
+        ck.case(("complex", Hc.tobytes(), nest, boom), nontrivial=True, kind="complex-hermitian-context", nested=nest, exception=boom, dim=n)
+        for what, dev in bad:
+            ck.fail("complex:%s" % what, "context of a complex Hermitian operator: %s (%.3g)" % (what, dev), inp)
